@@ -306,6 +306,68 @@ func runDeployment1(d *Deployment, rt routes, prefixes []string, c *vlib.Cases, 
 	return ""
 }
 
+// crossfire: two healthy endpoints of different providers; many clients at once, half on one provider's prefix, half on
+// the other's, request shapes that fit their own provider only by fallback (no model, a path of the other provider).
+// Every request carries a number in its query; each backend records what reached it.
+func crossfire(types [2]string, rounds, clients int) map[string]any {
+	var bes [2]*stack.Backend
+	var eps []stack.EP
+	for i, t := range types {
+		bes[i] = stack.NewBackend(fmt.Sprintf("X%d", i))
+		defer bes[i].Close()
+		bes[i].KeepBodies = false
+		bes[i].SetBehaviour(stack.Behaviour{Kind: "ok", Status: 200, Headers: [][2]string{{"Content-Type", "application/json"}}, Body: []byte(`{"ok":true}`)})
+		eps = append(eps, stack.EP{Name: bes[i].Name, Type: t, Priority: 100, Backend: bes[i]})
+	}
+	s, err := stack.Start(stack.Opts{Vary: stack.VaryFor("c11.crossfire", types), Engine: "sherpa", Balancer: "priority", EPs: eps})
+	if err != nil {
+		return map[string]any{"start_err": err.Error()}
+	}
+	defer s.Stop()
+	for _, b := range bes {
+		s.SetStatus(b.Name, domain.StatusHealthy)
+	}
+	paths := []string{"api/generate", "v1/chat/completions", "api/chat", "v1/completions"}
+	total, strays, first := 0, 0, ""
+	for r := 0; r < rounds; r++ {
+		var wg sync.WaitGroup
+		want := map[string]int{}
+		var wmu sync.Mutex
+		for k := 0; k < clients; k++ {
+			wg.Add(1)
+			go func(k int) {
+				defer wg.Done()
+				id := fmt.Sprintf("n=%d-%d", r, k)
+				// three quarters: no body (so no model) on a path that is not this provider's own — the shape that reaches the
+				// filter's widest fallback; the rest: assorted paths with a body
+				target := "/olla/" + types[k%2] + "/api/generate?" + id
+				var body []byte
+				if (k/2)%4 == 3 {
+					target = "/olla/" + types[k%2] + "/" + paths[(k/2+r)%len(paths)] + "?" + id
+					body = []byte(`{"prompt":"hi"}`)
+				}
+				stack.Do(s.Addr, stack.Request("POST", target, s.Addr, [][2]string{{"Content-Type", "application/json"}}, body, false), 5*time.Second)
+				wmu.Lock()
+				want[id] = k % 2
+				wmu.Unlock()
+			}(k)
+		}
+		wg.Wait()
+		for i, b := range bes {
+			for _, sn := range b.Taken() {
+				total++
+				if w, ok := want[sn.RawQuery]; ok && w != i {
+					strays++
+					if first == "" {
+						first = fmt.Sprintf("round %d: POST /olla/%s%s?%s reached the %s backend", r, types[w], sn.Path, sn.RawQuery, types[i])
+					}
+				}
+			}
+		}
+	}
+	return map[string]any{"requests_seen": total, "strays": strays, "first": first, "rounds": rounds, "clients": clients}
+}
+
 func main() {
 	tier := vlib.Tier()
 	r := vlib.NewRng(vlib.Seed())
@@ -434,6 +496,12 @@ func main() {
 		}(i)
 	}
 	wg.Wait()
+	if vlib.ReplayPath() == "" {
+		for _, pair := range [][2]string{{"vllm", "ollama"}, {"lm-studio", "vllm"}} {
+			c.Emit(map[string]any{"kind": "crossfire", "types": pair, "impl": crossfire(pair, map[bool]int{false: 500, true: 4000}[tier == "thorough"], 48)})
+			c.Count("crossfire")
+		}
+	}
 	c.Close(map[string]any{"exhaustive": true, "deployments": len(deps),
 		"exhaustive_note": "every provider prefix the router registers x every single endpoint type and every unordered pair of types drawn from the shipped profile names (+auto); alias spellings (dmr, lmstudio, lm_studio) as singles and sampled partners; triples sampled; per deployment every prefix x {chat + one rotating path (quick) | all five paths (thorough)} x {no model, each endpoint's model, a model nobody lists} + every model-listing route"})
 }
